@@ -31,10 +31,10 @@ Proof.
 Qed.
 
 Section OkMain.
-Variable caps : list Z.
+Variable caps : Z -> bool.
 Variable tb : captab.
-Hypothesis Hslot : forall k, ct_slot tb k = true -> zmem k caps = true.
-Hypothesis Hname : forall s g, ct_name tb s = Some g -> zmem g caps = true.
+Hypothesis Hslot : forall k, ct_slot tb k = true -> caps k = true.
+Hypothesis Hname : forall s g, ct_name tb s = Some g -> caps g = true.
 
 Variable is_word_char : Z -> bool.
 Variable to_lower : Z -> Z.
@@ -63,7 +63,7 @@ Local Notation class_node := (class_node to_lower simple_fold cat_in).
 Definition bunit (o : Z) (r : pr (bres * list Z)) : Prop :=
   match r with POk (BNode x, _) => unit_ok o x | _ => True end.
 
-Lemma ref_unit o g : zmem g caps = true -> unit_ok o (mk_node_mn T_Ref o g 0).
+Lemma ref_unit o g : caps g = true -> unit_ok o (mk_node_mn T_Ref o g 0).
 Proof.
   intros H. split.
   - apply wf_iff. split; [|reflexivity]. unfold knd, gq. cbn. rewrite H. reflexivity.
@@ -423,7 +423,7 @@ Definition gopen_ok (v : gvars) (r : pr (option rnode * gvars * list Z)) : Prop 
   | _ => True
   end.
 
-Definition num_ok (k : Z) : Prop := k = -1 \/ zmem k caps = true.
+Definition num_ok (k : Z) : Prop := k = -1 \/ caps k = true.
 
 Lemma capture_gnode o m n : num_ok m -> num_ok n -> (negb (m =? -1) || negb (n =? -1)) = true ->
   gnode (mk_node_mn T_Capture o m n).
@@ -482,7 +482,7 @@ Lemma group_cond_o v p1 : gopen_ok v (group_cond tb v p1).
 Proof.
   unfold Parser.group_cond.
   match goal with |- gopen_ok _ (pbind ?a _) =>
-    assert (A : match a with POk (Some (g, _)) => zmem g caps = true | _ => True end) end.
+    assert (A : match a with POk (Some (g, _)) => caps g = true | _ => True end) end.
   { destruct (tl p1) as [|c p2']; [exact I|].
     destruct (is_digit c).
     - destruct (decimal (c :: p2')) as [[n q]|e q| | |]; cbn [pbind]; auto.
@@ -519,7 +519,7 @@ Proof. intros H. unfold gopen_ok. rewrite H. auto. Qed.
 
 Lemma group_open_o mco gt v p :
   ((is_nil p || negb (hd_is p 63) || nth_is 1 p 41) = true -> (useN (gv_o v) || gv_ign v) = false ->
-   zmem (gv_autocap v) caps = true) ->
+   caps (gv_autocap v) = true) ->
   gopen_ok v (group_open tb mco gt v p).
 Proof.
   intros Hac. unfold Parser.group_open.
@@ -620,7 +620,7 @@ Qed.
 (* ---------------------------------------------------------------- "(" and ")" *)
 Lemma round_open_o mco st1 p3 st' nxt : minv st1 -> oinv st1 -> ms_unit st1 = None ->
   ((is_nil p3 || negb (hd_is p3 63) || nth_is 1 p3 41) = true -> (useN (ms_o st1) || ms_ign st1) = false ->
-   zmem (ms_autocap st1) caps = true) ->
+   caps (ms_autocap st1) = true) ->
   round_open tb mco st1 p3 = POk (st', nxt) -> oinv st'.
 Proof.
   intros [B D] Ho Hu Hac E. unfold Parser.round_open in E.
@@ -713,7 +713,7 @@ Lemma scan_round_o mco st p wasq st' nxt : minv st -> oinv st -> ms_unit st = No
   (forall p0 run p1 p3, scan_blank_full (ms_o st) p = POk p0 -> take_run (ms_o st) p0 = (run, p1) ->
        scan_blank_full (ms_o st) p1 = POk (40 :: p3) ->
        (is_nil p3 || negb (hd_is p3 63) || nth_is 1 p3 41) = true -> (useN (ms_o st) || ms_ign st) = false ->
-       zmem (ms_autocap st) caps = true) ->
+       caps (ms_autocap st) = true) ->
   scan_round tb mco st p wasq = POk (st', nxt) -> oinv st'.
 Proof.
   intros Iv Ho Hu Hac E. unfold Parser.scan_round in E.
@@ -771,7 +771,7 @@ Proof.
   destruct Ho as [[[_ [_ K]] _] _ _]. destruct (kcls (n_t (ms_group st))); try contradiction; discriminate.
 Qed.
 
-Lemma oinv_init o : zmem 0 caps = true ->
+Lemma oinv_init o : caps 0 = true ->
   oinv (mkMS [] (mk_node_mn T_Capture o 0 (-1)) (mk_node T_Alternate o) (mk_node T_Concatenate o) None o [] false 1).
 Proof.
   intros Z0. constructor; cbn; [|exact I | exact I].
@@ -780,3 +780,60 @@ Proof.
 Qed.
 
 End OkMain.
+
+(* ---------------------------------------------------------------- the shape alone, for every option word *)
+(* with the trivial membership predicate nothing is asked of the capture table: every tree syntax.Parse builds --
+   ECMAScript and RE2 included, any oracle -- has the arities, counts and one-directional loop bodies of [wfb] *)
+Section Shape.
+Variable is_word_char : Z -> bool.
+Variable to_lower : Z -> Z.
+Variable simple_fold : Z -> Z.
+Variable participates : Z -> bool.
+Variable cat_in : Z -> Z -> bool.
+Variable cat_name : list Z -> Z.
+
+Local Notation scan_loop_full := (scan_loop_full is_word_char to_lower simple_fold participates cat_in cat_name).
+Local Notation any := (fun _ : Z => true).
+
+Lemma shape_loop tb mco fuel : forall st p wasq stF, minv st -> oinv any st -> ms_unit st = None ->
+  scan_loop_full fuel tb mco st p wasq = POk stF -> minv stF /\ oinv any stF.
+Proof.
+  induction fuel as [|f IH]; intros st p wasq stF Iv Ho Hu E; [discriminate|].
+  cbn [Parser.scan_loop_full] in E. destruct p as [|c p']; [inversion E; subst; auto|].
+  destruct (scan_round is_word_char to_lower simple_fold participates cat_in cat_name tb mco st (c :: p') wasq) as [[st' nxt]|e q| | |] eqn:ER;
+    cbn [pbind] in E; try discriminate.
+  pose proof (scan_round_ok is_word_char to_lower simple_fold participates cat_in cat_name tb mco st (c :: p') wasq Iv Hu ltac:(discriminate)) as RR.
+  rewrite ER in RR.
+  pose proof (scan_round_o any tb (fun _ _ => eq_refl) (fun _ _ _ => eq_refl) is_word_char to_lower simple_fold participates cat_in cat_name
+                mco st (c :: p') wasq st' nxt Iv Ho Hu (fun _ _ _ _ _ _ _ _ _ => eq_refl) ER) as Ho'.
+  destruct nxt as [[q wq]|].
+  - cbn [round_res] in RR. destruct RR as [R1 [R2 _]]. eapply IH; [exact R1 | exact Ho' | exact R2 | exact E].
+  - inversion E; subst. cbn [round_res] in RR. auto.
+Qed.
+
+Theorem parse_tree_shape o mco_flag p t caps captop :
+  parse is_word_char to_lower simple_fold participates cat_in cat_name o mco_flag p = Ok (PR_Tree t caps captop) ->
+  wf any t.
+Proof.
+  intros E. unfold Parser.parse in E.
+  destruct (negb pl_bounds_ok); [discriminate|].
+  destruct (negb (forallb (fun c => 0 <=? c) p)); [discriminate|].
+  set (mco := mco_flag || useE o || useRE2 o) in *.
+  destruct (count_captures is_word_char to_lower simple_fold cat_in cat_name mco o p) as [tb|e q| | |]; cbn [pbind] in E; try discriminate.
+  destruct (scan_regex is_word_char to_lower simple_fold participates cat_in cat_name (captab_main tb) mco o p) as [t0|e q| | |] eqn:ES;
+    cbn [pbind] in E; try discriminate.
+  inversion E; subst t0. clear E.
+  unfold Parser.scan_regex in ES.
+  set (st0 := mkMS [] (mk_node_mn T_Capture o 0 (-1)) (mk_node T_Alternate o) (mk_node T_Concatenate o) None o [] false 1) in *.
+  destruct (scan_loop_full (S (length p)) (captab_main tb) mco st0 p false) as [st| | | |] eqn:ELP; cbn [pbind] in ES; try discriminate.
+  assert (I0 : minv st0).
+  { split; [|reflexivity]. constructor; cbn; auto; (split; [constructor | reflexivity]). }
+  destruct (shape_loop (captab_main tb) mco (S (length p)) st0 p false st I0 (oinv_init any o eq_refl) eq_refl ELP) as [IvF OF].
+  destruct (ms_stack st); [|discriminate].
+  destruct (add_group cat_in st) as [st'| | | |] eqn:EG; cbn [pbind] in ES; try discriminate.
+  destruct (ms_unit st') as [u|] eqn:EU; [|discriminate]. inversion ES; subst u.
+  exact (scan_end_o any (captab_main tb) (fun _ _ => eq_refl) (fun _ _ _ => eq_refl) is_word_char to_lower simple_fold participates cat_in cat_name
+           st st' t (proj1 IvF) OF EG EU).
+Qed.
+
+End Shape.
